@@ -33,6 +33,7 @@ func (b *Buffer) Close() (err error) {
 		err = nil
 
 		// write lock because it's for the cond (we need at least read for getting done + cancel)
+		verifAt("buffer.close.lock", b, 0)
 		b.mutex.Lock()
 		defer b.mutex.Unlock()
 
@@ -45,6 +46,7 @@ func (b *Buffer) Close() (err error) {
 
 		// block until all consumers are closed (they remove themselves from the internal mapping)
 		for len(b.consumers) != 0 {
+			verifAt("buffer.close.wait", b, 0)
 			b.cond.Wait()
 		}
 	})
@@ -70,6 +72,7 @@ func (b *Buffer) Put(ctx context.Context, values ...interface{}) error {
 		}
 	}
 
+	verifAt("buffer.put.lock", b, len(values))
 	b.mutex.Lock()
 	defer b.mutex.Unlock()
 
@@ -87,6 +90,7 @@ func (b *Buffer) Put(ctx context.Context, values ...interface{}) error {
 func (b *Buffer) NewConsumer() (Consumer, error) {
 	b.ensure()
 
+	verifAt("buffer.newconsumer.lock", b, 0)
 	b.mutex.Lock()
 	defer b.mutex.Unlock()
 
@@ -106,6 +110,7 @@ func (b *Buffer) NewConsumer() (Consumer, error) {
 	go func() {
 		// automatically close the consumer when the context is cancelled
 		defer c.Close()
+		verifAt("buffer.consumer.watch.recv", c, 0)
 		<-c.ctx.Done()
 	}()
 
@@ -120,6 +125,7 @@ func (b *Buffer) NewConsumer() (Consumer, error) {
 func (b *Buffer) Slice() []interface{} {
 	b.ensure()
 
+	verifAt("buffer.slice.rlock", b, 0)
 	b.mutex.RLock()
 	defer b.mutex.RUnlock()
 
@@ -137,6 +143,7 @@ func (b *Buffer) Slice() []interface{} {
 func (b *Buffer) Size() int {
 	b.ensure()
 
+	verifAt("buffer.size.rlock", b, 0)
 	b.mutex.RLock()
 	defer b.mutex.RUnlock()
 
@@ -165,6 +172,7 @@ func (b *Buffer) SetCleanerConfig(config CleanerConfig) error {
 		return fmt.Errorf("bigbuff.Buffer.SetCleanerConfig negative config.Cooldown: %d", config.Cooldown)
 	}
 
+	verifAt("buffer.setcleaner.lock", b, 0)
 	b.mutex.Lock()
 	defer b.mutex.Unlock()
 
@@ -189,10 +197,12 @@ func (b *Buffer) Diff(c Consumer) (int, bool) {
 	}
 
 	// the consumer is always locked first
+	verifAt("buffer.diff.lock", cm, 0)
 	cm.mutex.Lock()
 	defer cm.mutex.Unlock()
 
 	// then the buffer itself (we only need a read lock)
+	verifAt("buffer.diff.rlock", b, 0)
 	b.mutex.RLock()
 	defer b.mutex.RUnlock()
 
@@ -241,6 +251,7 @@ func (b *Buffer) Range(ctx context.Context, c Consumer, fn func(index int, value
 
 // delete runs delete on the consumer map, for a given consumer, using the mutex and broadcasting
 func (b *Buffer) delete(c *consumer) {
+	verifAt("buffer.delete.lock", b, 0)
 	b.mutex.Lock()
 	defer b.mutex.Unlock()
 
@@ -252,6 +263,7 @@ func (b *Buffer) delete(c *consumer) {
 
 // commit applies a given offset modifier to a given consumer, returning an error if the consumer does not exist
 func (b *Buffer) commit(c *consumer, offset int) error {
+	verifAt("buffer.commit.lock", b, offset)
 	b.mutex.Lock()
 	defer b.mutex.Unlock()
 
@@ -316,6 +328,7 @@ func (b *Buffer) getAsync(ctx context.Context, c *consumer, offset int, cancels 
 }, interface{}, error) {
 	// read lock for the first (sync) attempt at getting the value
 	// the async case returns a channel, so this will be released in that case
+	verifAt("buffer.getasync.rlock", b, offset)
 	b.mutex.RLock()
 	defer b.mutex.RUnlock()
 
@@ -339,6 +352,7 @@ func (b *Buffer) getAsync(ctx context.Context, c *consumer, offset int, cancels 
 	// spawn a sender for it
 	go func() {
 		// we need to wait for the value in the buffer, so we need to write lock the buffer
+		verifAt("buffer.getasync.waiter.lock", b, offset)
 		b.mutex.Lock()
 		defer b.mutex.Unlock()
 
@@ -483,6 +497,7 @@ func (b *Buffer) cleanup() {
 		broadcast             = true // set to true if we receive any updates while we are pending
 		cleanup               = func(d time.Duration) {
 			// lock so we can check timer safely
+			verifAt("buffer.cleanup.fn.lock", b, 0)
 			mutex.Lock()
 			defer mutex.Unlock()
 
@@ -516,6 +531,7 @@ func (b *Buffer) cleanup() {
 				defer timer.Stop() // just in case, ensure the timer gets stopped
 				defer func() {
 					// lock on the mutex, so that the timer removal and broadcast checking / performing is synced
+					verifAt("buffer.timer.tw1", b, 0)
 					mutex.Lock()
 					defer mutex.Unlock()
 
@@ -532,12 +548,14 @@ func (b *Buffer) cleanup() {
 				}()
 
 				// wait for the timer to expire
+				verifAt("buffer.timer.tw0", b, 0)
 				<-timer.C
 			}()
 		}
 	)
 
 	// we need a write lock for the cond + we write
+	verifAt("buffer.cleanup.lock", b, 0)
 	b.mutex.Lock()
 	defer b.mutex.Unlock()
 
